@@ -410,7 +410,28 @@ def rw_R2b(rf, a, b):
     return out
 
 
-REWRITES = {"R2b": rw_R2b, "R15": rw_R15, "R2": rw_R2, "R7": rw_R7, "R3": rw_R3, "R1": rw_R1, "R4": rw_R4, "R5": rw_R5, "R10": rw_R10, "R13": rw_R13, "R14": rw_R14}
+
+DURATION_IDENTS = {"duration", "sleep_time", "timeout"}
+
+
+def rw_R18(rf, a, b):
+    """`d1 > d2` / `d1 - d2` on std::time::Duration locals -> verif_duration_gt(&d1, &d2) / verif_duration_sub(d1, d2)
+    (vstd has no arithmetic spec for Duration and the orphan rule forbids adding one; same-body wrappers)"""
+    toks, sg, out = rf.toks, _sig(rf.toks, a, b), []
+    for k, i in enumerate(sg):
+        if toks[i].text in (">", "-") and 0 < k < len(sg) - 1:
+            l, r = toks[sg[k - 1]], toks[sg[k + 1]]
+            if l.kind == "ident" and r.kind == "ident" and l.text in DURATION_IDENTS and r.text in DURATION_IDENTS \
+                    and toks[sg[k - 2]].text not in (".", "-") and toks[sg[k + 2]].text not in (".", "(", ">"):
+                if toks[i].text == ">":
+                    new = "verif_duration_gt(&%s, &%s)" % (l.text, r.text)
+                else:
+                    new = "verif_duration_sub(%s, %s)" % (l.text, r.text)
+                out.append((Edit(sg[k - 1], sg[k + 1] + 1, new, ("gen", "R18")), "R18 %s:%d `%s %s %s` -> %s" % (rf.rel, toks[i].line, l.text, toks[i].text, r.text, new)))
+    return out
+
+
+REWRITES = {"R18": rw_R18, "R2b": rw_R2b, "R15": rw_R15, "R2": rw_R2, "R7": rw_R7, "R3": rw_R3, "R1": rw_R1, "R4": rw_R4, "R5": rw_R5, "R10": rw_R10, "R13": rw_R13, "R14": rw_R14}
 
 
 # --------------------------------------------------------------------------------------------
